@@ -807,7 +807,11 @@ conditional assignment — "only when the scenario has a non-empty nmne_config" 
 `C04_conditional_write_counterexample`.) -/
 theorem C04_gen_writes_unconditional :
     ((entries.filter fun e => derive e == .shared || derive e == .rewrittenBeforeRead).all fun e =>
-      !e.writers.isEmpty && e.writers.all fun f => e.uncondWriters.contains f) = true := by decide +kernel
+      !e.writers.isEmpty && (e.writers.all fun f => e.uncondWriters.contains f)
+      -- … and that writer runs WHENEVER from_config runs to completion: it is from_config itself or a helper called from an unconditional
+      -- top-level statement (a write moved into a helper that is called under an `if` fails here); no `setattr(<class>, <computed name>, …)`
+      && (e.writers.all fun f => e.anchoredWriters.contains f)) = true
+    ∧ dynamicClassWrites = [] := by decide +kernel
 
 /-- the method names of the non-sink reader functions of an entry, writers themselves excluded -/
 def readerIdents (e : Entry) : List String :=
@@ -892,6 +896,25 @@ theorem C04_gen_skeleton_matches :
     ∧ (allPhases.all fun ph =>
           ((unprotectedReads [] (progOf ph)).contains gRng == (rngDrawnIn "random" ph && !rngSeededIn "random" ph))) = true := by
   decide +kernel
+
+/-- Order inside the operation, beyond the statements of `from_config`: the STATIC CALL GRAPH (by name, self type followed through
+constructors, registered lambdas deferred, import-scoped resolution of unknown receivers — harness/extract/sharedstate.py `CallGraph`) from
+every call that `from_config`, `PrimaiteGymEnv.reset` and `PrimaiteGymEnv.__init__` make BEFORE the write of each NMNE class attribute reaches no
+non-sink reader of that attribute, and no bound of the search was hit. (The rig cross-checks the call graph against the functions actually
+entered before the write on monitored runs.) -/
+theorem C04_gen_no_reader_before_write :
+    (reachBeforeWrite.map fun r => (r.1, r.2.1)) =
+      [ ("game.agent.observations.nic_observations:NICObservation.capture_nmne", "from_config"),
+        ("game.agent.observations.nic_observations:NICObservation.capture_nmne", "reset"),
+        ("game.agent.observations.nic_observations:NICObservation.capture_nmne", "__init__"),
+        ("simulator.network.hardware.base:NetworkInterface.nmne_config", "from_config"),
+        ("simulator.network.hardware.base:NetworkInterface.nmne_config", "reset"),
+        ("simulator.network.hardware.base:NetworkInterface.nmne_config", "__init__") ]
+    ∧ (reachBeforeWrite.all fun r =>
+        !r.2.2.2.2.2 && 0 < r.2.2.2.1 &&
+        match entryNamed r.1 with
+        | none => false
+        | some e => (r.2.2.2.2.1.filter fun f => !isSink f && !e.writers.contains f).isEmpty) = true := by decide +kernel
 
 /-! ### what `reset` keeps: the environment-level attributes -/
 
